@@ -1,11 +1,14 @@
 // C19: wire and storage decoding is total and round-trips.
 //
-// Op line:  <type> <hex>        one decoder call: the named keep-core type's Unmarshal on the bytes
-//                               (hex "-" = empty input)
-// Obs line: ok <hex>            Unmarshal accepted; <hex> = the value's own Marshal, re-encoded
-//                               deterministically (protobuf map entries sorted by key); the harness
-//                               also feeds that encoding back: if it is not accepted or re-marshals
-//                               differently the line ends with " UNSTABLE"
+// Op line:  <type> <hex> [o:<oracle>] [wf]
+//                               one decoder call: the named keep-core type's Unmarshal on the bytes
+//                               (hex "-" = empty input); o: = third-party parse results for the
+//                               curve points / keys inside (see oracle); wf = the bytes are the
+//                               Marshal of a well-formed value (round-trip stream)
+// Obs line: ok <hex> idem       Unmarshal accepted; <hex> = the value's own Marshal, re-encoded
+//                               deterministically (protobuf map entries sorted by key); idem = that
+//                               encoding fed back is accepted and re-marshals identically
+//           ok <hex> UNSTABLE   … it is not
 //           err                 Unmarshal returned an error
 //           PANIC … / HANG      (caught by hx)
 //
@@ -25,6 +28,7 @@ import (
 	bn256 "github.com/ethereum/go-ethereum/crypto/bn256/cloudflare"
 	"github.com/btcsuite/btcd/btcec"
 	libp2pcrypto "github.com/libp2p/go-libp2p/core/crypto"
+	"github.com/libp2p/go-libp2p/core/peer"
 	"google.golang.org/protobuf/encoding/protowire"
 	"google.golang.org/protobuf/proto"
 	"google.golang.org/protobuf/reflect/protoreflect"
@@ -38,6 +42,7 @@ import (
 	"github.com/keep-network/keep-core/pkg/beacon/gjkr"
 	gjkrpb "github.com/keep-network/keep-core/pkg/beacon/gjkr/gen/pb"
 	"github.com/keep-network/keep-core/pkg/beacon/registry"
+	"github.com/keep-network/keep-core/pkg/crypto/ephemeral"
 	registrypb "github.com/keep-network/keep-core/pkg/beacon/registry/gen/pb"
 	netpb "github.com/keep-network/keep-core/pkg/net/gen/pb"
 	"github.com/keep-network/keep-core/pkg/net/libp2p"
@@ -157,8 +162,9 @@ func fill(r *hx.Rng, m protoreflect.Message, depth int) {
 	fds := m.Descriptor().Fields()
 	for i := 0; i < fds.Len(); i++ {
 		fd := fds.Get(i)
-		if r.Chance(1, 12) {
-			continue // field absent (default)
+		singularMsg := fd.Kind() == protoreflect.MessageKind && !fd.IsList() && !fd.IsMap()
+		if r.Chance(1, 12) && !singularMsg {
+			continue // field absent (default); keep-core's Marshal always emits its sub-messages
 		}
 		switch {
 		case fd.IsMap():
@@ -197,7 +203,7 @@ func fill(r *hx.Rng, m protoreflect.Message, depth int) {
 func scalar(r *hx.Rng, fd protoreflect.FieldDescriptor) protoreflect.Value {
 	switch fd.Kind() {
 	case protoreflect.Uint32Kind:
-		if strings.Contains(strings.ToLower(string(fd.Name())), "index") && !strings.Contains(string(fd.Name()), "Member") && !strings.Contains(string(fd.Name()), "sender") {
+		if strings.Contains(strings.ToLower(string(fd.Name())), "index") && !strings.Contains(strings.ToLower(string(fd.Name())), "member") && !strings.Contains(string(fd.Name()), "sender") {
 			return protoreflect.ValueOfUint32(uint32(r.U64()) >> uint(r.Intn(32)))
 		}
 		return protoreflect.ValueOfUint32(idx(r))
@@ -704,7 +710,129 @@ func opLine(t *typ, b []byte) string {
 	if h == "" {
 		h = "-"
 	}
-	return t.name + " " + h
+	line := t.name + " " + h
+	if o := oracle(t, b); o != "" {
+		line += " o:" + o
+	}
+	return line
+}
+
+// wfLine marks the op as "these bytes are the Marshal of a well-formed value" (round-trip stream).
+func wfLine(t *typ, b []byte) string { return opLine(t, b) + " wf" }
+
+// ---- library oracle -----------------------------------------------------------------
+//
+// Curve points and keys inside the messages are parsed by third-party libraries (bn256 G1/G2,
+// btcec public keys, libp2p keys, big.Int decimal strings). The model treats that parsing as a
+// parameter: for every such blob occurring in the input the op line carries
+// <kind><hex>=<hex of the library's re-encoding> or <kind><hex>=! (rejected).
+
+type blob struct {
+	kind byte
+	b    []byte
+}
+
+func blobsOf(t *typ, b []byte) []blob {
+	if t.pb == nil {
+		return nil
+	}
+	m := t.pb()
+	if err := proto.Unmarshal(b, m); err != nil {
+		return nil
+	}
+	var out []blob
+	mapVals := func(kind byte, mp map[uint32][]byte) {
+		for _, v := range mp {
+			out = append(out, blob{kind, v})
+		}
+	}
+	switch p := m.(type) {
+	case *gjkrpb.EphemeralPublicKey:
+		mapVals('e', p.EphemeralPublicKeys)
+	case *tdkgpb.EphemeralPublicKeyMessage:
+		mapVals('e', p.EphemeralPublicKeys)
+	case *tsignpb.EphemeralPublicKeyMessage:
+		mapVals('e', p.EphemeralPublicKeys)
+	case *gjkrpb.MemberCommitments:
+		for _, c := range p.Commitments {
+			out = append(out, blob{'g', c})
+		}
+	case *gjkrpb.MemberPublicKeySharePoints:
+		for _, c := range p.PublicKeySharePoints {
+			out = append(out, blob{'h', c})
+		}
+	case *registrypb.ThresholdSigner:
+		out = append(out, blob{'h', p.GroupPublicKey}, blob{'d', []byte(p.GroupPrivateKeyShare)})
+		mapVals('h', p.GroupPublicKeyShares)
+	case *registrypb.Membership:
+		out = append(out, blobsOf(byName["registry.ThresholdSigner"], p.Signer)...)
+	case *netpb.Identity:
+		out = append(out, blob{'i', p.PubKey})
+	}
+	return out
+}
+
+func libParse(bl blob) ([]byte, bool) {
+	defer func() { recover() }()
+	switch bl.kind {
+	case 'e':
+		k, err := ephemeral.UnmarshalPublicKey(bl.b)
+		if err != nil {
+			return nil, false
+		}
+		return k.Marshal(), true
+	case 'g':
+		p := new(bn256.G1)
+		if _, err := p.Unmarshal(bl.b); err != nil {
+			return nil, false
+		}
+		return p.Marshal(), true
+	case 'h':
+		p := new(bn256.G2)
+		if _, err := p.Unmarshal(bl.b); err != nil {
+			return nil, false
+		}
+		return p.Marshal(), true
+	case 'd':
+		v, ok := new(big.Int).SetString(string(bl.b), 10)
+		if !ok {
+			return nil, false
+		}
+		return []byte(v.String()), true
+	case 'i':
+		k, err := libp2pcrypto.UnmarshalPublicKey(bl.b)
+		if err != nil {
+			return nil, false
+		}
+		if _, err := peer.IDFromPublicKey(k); err != nil {
+			return nil, false
+		}
+		c, err := libp2pcrypto.MarshalPublicKey(k)
+		if err != nil {
+			return nil, false
+		}
+		return c, true
+	}
+	return nil, false
+}
+
+func oracle(t *typ, b []byte) string {
+	seen := map[string]bool{}
+	var parts []string
+	for _, bl := range blobsOf(t, b) {
+		key := string(bl.kind) + hex.EncodeToString(bl.b)
+		if seen[key] {
+			continue
+		}
+		seen[key] = true
+		if c, ok := libParse(bl); ok {
+			parts = append(parts, key+"="+hex.EncodeToString(c))
+		} else {
+			parts = append(parts, key+"=!")
+		}
+	}
+	sort.Strings(parts)
+	return strings.Join(parts, ",")
 }
 
 func descOf(t *typ) protoreflect.MessageDescriptor {
@@ -714,8 +842,68 @@ func descOf(t *typ) protoreflect.MessageDescriptor {
 	return t.pb().ProtoReflect().Descriptor()
 }
 
+// boundaryOps: for every uint32 field of the type (top level, and keys of map fields) an otherwise
+// well-formed encoding carrying 0, 1, 255, 256 and 2^32-1 in that field.
+func boundaryOps(r *hx.Rng, t *typ) []string {
+	md := descOf(t)
+	if md == nil {
+		return nil
+	}
+	var ops []string
+	vals := []uint64{0, 1, 255, 256, 1<<32 - 1}
+	fds := md.Fields()
+	for i := 0; i < fds.Len(); i++ {
+		fd := fds.Get(i)
+		switch {
+		case fd.Kind() == protoreflect.Uint32Kind && !fd.IsList() && !fd.IsMap():
+			for _, v := range vals {
+				fs, _ := splitFields(validOf(r, t.name))
+				var out []rawField
+				for _, f := range fs {
+					if f.num != fd.Number() {
+						out = append(out, f)
+					}
+				}
+				out = append(out, rawField{fd.Number(), protowire.VarintType, protowire.AppendVarint(nil, v)})
+				sort.SliceStable(out, func(a, b int) bool { return out[a].num < out[b].num })
+				ops = append(ops, opLine(t, joinFields(out)))
+			}
+		case fd.IsMap() && fd.MapKey().Kind() == protoreflect.Uint32Kind:
+			for _, v := range vals {
+				var fs []rawField
+				var entry *rawField
+				for try := 0; try < 40 && entry == nil; try++ {
+					fs, _ = splitFields(validOf(r, t.name))
+					for j := range fs {
+						if fs[j].num == fd.Number() && fs[j].wt == protowire.BytesType {
+							entry = &fs[j]
+						}
+					}
+				}
+				if entry == nil {
+					continue
+				}
+				sub, _ := splitFields(payload(*entry))
+				var ne []rawField
+				ne = append(ne, rawField{1, protowire.VarintType, protowire.AppendVarint(nil, v)})
+				for _, f := range sub {
+					if f.num != 1 {
+						ne = append(ne, f)
+					}
+				}
+				*entry = lenField(fd.Number(), joinFields(ne))
+				ops = append(ops, opLine(t, joinFields(fs)))
+			}
+		}
+	}
+	return ops
+}
+
 func gen(r *hx.Rng, n int, tier string) []string {
 	var ops []string
+	for _, t := range types {
+		ops = append(ops, boundaryOps(r, t)...)
+	}
 	// systematic sweep: every type, empty input, one valid value, every single-field mutation of it
 	for _, t := range types {
 		ops = append(ops, opLine(t, nil))
@@ -729,7 +917,7 @@ func gen(r *hx.Rng, n int, tier string) []string {
 		}
 		for rep := 0; rep < reps; rep++ {
 			v := validOf(r, t.name)
-			ops = append(ops, opLine(t, v))
+			ops = append(ops, wfLine(t, v))
 			fs, _ := splitFields(v)
 			for i := range fs {
 				for k := 0; k < nMut; k++ {
@@ -751,7 +939,7 @@ func gen(r *hx.Rng, n int, tier string) []string {
 		}
 		switch s := r.Intn(100); {
 		case s < 35 && t.pb != nil: // (i) well-formed
-			ops = append(ops, opLine(t, validOf(r, t.name)))
+			ops = append(ops, wfLine(t, validOf(r, t.name)))
 		case s < 45 && t.pb != nil: // (i') generically filled, not fixed up
 			m := t.pb()
 			fill(r, m.ProtoReflect(), 0)
@@ -822,8 +1010,13 @@ func hexOrDash(b []byte) string {
 
 func exec(op string) (string, string) {
 	f := strings.Fields(op)
-	if len(f) != 2 {
+	if len(f) < 2 || len(f) > 4 {
 		return "bad-op", "bad"
+	}
+	for _, x := range f[2:] {
+		if x != "wf" && !strings.HasPrefix(x, "o:") {
+			return "bad-op", "bad"
+		}
 	}
 	t := byName[f[0]]
 	if t == nil {
@@ -863,7 +1056,7 @@ func exec(op string) (string, string) {
 	if c == hexOrDash(in) {
 		tag = "rt"
 	}
-	return "ok " + c, tag
+	return "ok " + c + " idem", tag
 }
 
 func main() {
